@@ -504,7 +504,136 @@ func runC18(r *Run) {
 	})
 
 	r.rule("R12", "the port is separated from a host by a port-aware split: the client package cuts a host at a ':' only through net.SplitHostPort or in a function that looks at the closing bracket of an IPv6 literal (E1, belief rule)", func() {
-		hostColonCutRule(r, cliPkg, 2, "so [2001:db8::1] and [2001:db8::2] share the jar key [2001:db8: and each receives the other's cookies")
+		hostColonCutRule(r, cliPkg, 1, "so [2001:db8::1] and [2001:db8::2] share the jar key [2001:db8: and each receives the other's cookies")
+	})
+
+	r.rule("R15", "the jar stores and looks up under the same spelling of the host: every key of CookieJar.hostCookies — written or looked up — is derived the same way, through net.SplitHostPort (which also takes the brackets off an IPv6 literal) or on every side without it; a hand-written split on one side files `[::1]:8080` under `[::1]` while the lookup asks for `::1` (E5, writer and reader agree)", func() {
+		type site struct {
+			pos  string
+			kind string
+		}
+		var sites []site
+		var keys []ssa.Value
+		viaSplit := func(key ssa.Value) bool {
+			return dependsOn(key, func(v ssa.Value) bool {
+				c, ok := v.(*ssa.Call)
+				return ok && calleeName(&c.Call) == "net.SplitHostPort"
+			}) != nil
+		}
+		r.P.AllFuncs(cliPkg, func(f *ssa.Function) {
+			for _, b := range f.Blocks {
+				for _, in := range b.Instrs {
+					var m, key ssa.Value
+					switch x := in.(type) {
+					case *ssa.MapUpdate:
+						m, key = x.Map, x.Key
+					case *ssa.Lookup:
+						m, key = x.X, x.Index
+					default:
+						continue
+					}
+					if !loadOfField(m, "client.CookieJar.hostCookies") {
+						continue
+					}
+					sites = append(sites, site{r.pos(in), ""})
+					keys = append(keys, key)
+				}
+			}
+		})
+		// (classified outside the enumeration: following a key through helpers needs the region mode)
+		for i := range sites {
+			sites[i].kind = "as handed in / a hand-written cut"
+			if viaSplit(keys[i]) {
+				sites[i].kind = "net.SplitHostPort"
+			}
+		}
+		r.atLeast("reads and writes of the jar's host map", len(sites), 4)
+		kinds := map[string][]string{}
+		for _, s := range sites {
+			kinds[s.kind] = append(kinds[s.kind], s.pos)
+		}
+		var desc []string
+		for _, k := range sortedKeys(kinds) {
+			desc = append(desc, k+": "+strings.Join(kinds[k], ", "))
+		}
+		r.check(len(kinds) == 1, "CookieJar:one-spelling-of-the-host-key", "", "all keys of the host map are derived the same way ("+strings.Join(desc, "; ")+")",
+			"the jar's host keys are derived in different ways ("+strings.Join(desc, "; ")+"): a cookie received from http://[::1]:8080/ is filed under another key than the one the next request to that URL looks up — the session cookie is not sent back")
+	})
+
+	r.rule("R14", "a User-Agent or Referer configured as a header arrives: in parserRequestHeader the default user agent is written before the configured headers are merged (so they replace it), and the user agent / referer of a level is written only when that level set one — an unconditional write after the merge replaces what SetHeader(\"User-Agent\", …) configured (E10 order, E1 guard)", func() {
+		f := r.Fn(cliPkg, "parserRequestHeader")
+		var merges []ssa.Instruction
+		for _, field := range []string{"client.Client.header", "client.Request.header"} {
+			for _, c := range callsIn(f, false) {
+				if strings.HasSuffix(c.Name, ").VisitAll") && len(c.Common.Args) > 0 && dependsOn(c.Common.Args[0], func(v ssa.Value) bool { return loadOfField(v, field) }) != nil {
+					merges = append(merges, c.Instr)
+				}
+			}
+		}
+		r.need(len(merges) == 2, "parserRequestHeader merges the client's and the request's headers")
+		n := 0
+		for _, c := range callsIn(f, false) {
+			isUA := strings.HasSuffix(c.Name, "RequestHeader).SetUserAgent") || strings.HasSuffix(c.Name, "RequestHeader).SetUserAgentBytes")
+			isRef := strings.HasSuffix(c.Name, "RequestHeader).SetReferer") || strings.HasSuffix(c.Name, "RequestHeader).SetRefererBytes")
+			if !isUA && !isRef {
+				continue
+			}
+			n++
+			what := "User-Agent"
+			if isRef {
+				what = "Referer"
+			}
+			val := c.Common.Args[len(c.Common.Args)-1]
+			key := fmt.Sprintf("parserRequestHeader:%s#%d:does-not-replace-a-configured-header", what, n)
+			isDefault := asConst(stripValue(val)) != nil
+			if ld, isLd := stripValue(val).(*ssa.UnOp); isLd && ld.Op == token.MUL {
+				_, isDefault = ld.X.(*ssa.Global) // a package-level default (`defaultUserAgent`)
+			}
+			if isDefault {
+				ok := true
+				for _, m := range merges {
+					if !precedes(c.Instr, m) {
+						ok = false
+					}
+				}
+				r.check(ok, key, r.pos(c.Instr), "the constant (default) value is written before the configured headers are merged",
+					"the default "+what+" is written after the configured headers were merged: `SetHeader(\""+what+"\", \"custom/1\")` on a request or client arrives as the default")
+				continue
+			}
+			// a level's own value: written only when that level configured one
+			guarded := false
+			lenOfVal := func(x ssa.Value) bool {
+				lc, ok := x.(*ssa.Call)
+				if !ok || len(lc.Call.Args) != 1 {
+					return false
+				}
+				bi, ok := lc.Call.Value.(*ssa.Builtin)
+				return ok && bi.Name() == "len" && sameValue(lc.Call.Args[0], val)
+			}
+			for _, br := range branchesIn(f) {
+				if !sameValue(br.Info.Root, val) && !lenOfVal(br.Info.Root) {
+					continue
+				}
+				var slot int
+				var okSlot bool
+				if str, isStr := constString(br.Info.Const); isStr && str == "" {
+					slot, okSlot = br.slotFor(token.NEQ)
+				} else if k, isK := constInt(br.Info.Const); isK && k == 0 && lenOfVal(br.Info.Root) {
+					switch br.Info.Op {
+					case token.NEQ, token.GTR:
+						slot, okSlot = br.slotWhenRel(true), true
+					case token.EQL:
+						slot, okSlot = br.slotWhenRel(false), true
+					}
+				}
+				if okSlot && dom(br.If.Block().Succs[slot], c.Block()) {
+					guarded = true
+				}
+			}
+			r.check(guarded, key, r.pos(c.Instr), "written only behind a test that the level configured a value",
+				"the "+what+" of a level is written whether or not that level configured one: an empty value erases what `SetHeader(\""+what+"\", …)` configured — the header does not arrive")
+		}
+		r.atLeast("User-Agent / Referer writes in parserRequestHeader", n, 2)
 	})
 
 	r.rule("R13", "the request URL is cut into path, query and fragment at the first `?` / `#` only: a cut that splits at every separator and keeps two pieces drops what follows a second one (E3)", func() {
@@ -956,7 +1085,20 @@ func lvl(client bool) string {
 // some edge and the client-level field only on edges that cannot be taken while the request-level
 // field is non-empty.
 func selectsRequestFirst(f *ssa.Function, setter, cfield, rfield string) bool {
-	calls := callsMatching(f, false, nameHasSuffix(setter))
+	var calls []callSite
+	for _, c := range callsMatching(f, false, nameHasSuffix(setter)) {
+		// (a write of the package default — a constant or a package-level variable — is not a level's value)
+		v := stripValue(c.Common.Args[len(c.Common.Args)-1])
+		if asConst(v) != nil {
+			continue
+		}
+		if ld, ok := v.(*ssa.UnOp); ok && ld.Op == token.MUL {
+			if _, isG := ld.X.(*ssa.Global); isG {
+				continue
+			}
+		}
+		calls = append(calls, c)
+	}
 	if len(calls) != 1 {
 		return false
 	}
